@@ -29,6 +29,10 @@ def view_eq(I, a, b, depth=0):
     a, b = I.unopt(a) if isinstance(a, SOpt) and is_concrete_bool(a.isnone) else a, b
     if a is b:
         return z3.BoolVal(True)
+    if (isinstance(a, SBool) and isinstance(b, SInt)) or (isinstance(a, SInt) and isinstance(b, SBool)):
+        # True and 1 compare equal in Python but are told apart everywhere a value is shown or its type
+        # is looked at (Literal[True] vs Literal[1]): a reloaded value must keep its type
+        return z3.BoolVal(False)
     if isinstance(a, SMapped) and a.src is b and I.codec is not None:
         # a list rebuilt element by element from the source list: equal iff the rebuilt generic
         # element equals the source's generic element on what the writer transferred
